@@ -230,6 +230,9 @@ func genC16(c *Ctx) {
 	// ---- every Calculator() builds its mutable state itself
 	shares, mutable, calcTypes := calculatorShares(c, ap)
 
+	// ---- no value source writes through a slice it got from the match or from another source
+	writes := sourceWrites(c, ap, sp)
+
 	// ---- statement order of collectSingle and AllIterator.Next
 	cp := c.ParseDir("search/collector")
 	csOrder := collectSingleOrder(c, cp)
@@ -284,6 +287,12 @@ state with every other calculator of the same definition -/
 def sharedMutable : List (String × String × String) :=
   %s
 
+/-- places where a value source (a §Values/Numbers/Dates/GeoPoints/Value/…§ method of search/aggregations, any
+function of search/source.go) re-slices, indexes-and-assigns, appends to, copies into or sorts a slice that it did
+not create itself (a parameter, or the result of a call such as §f.source.Values(match)§ / §match.DocValues(f)§):
+such a write can change the document values other aggregations read from the same hit -/
+def sourceWritesThrough : List String := %s
+
 /-- top-level statements of §TopNCollector.collectSingle§, in source order (only the ones that matter) -/
 def collectSingleOrder : List String := %s
 
@@ -301,7 +310,7 @@ def allNextEndMarksDone : Bool := %s
 
 end BlugeGen.C16
 `, "§", "`"), argSrc, b(dedup), b(rangeNested), strList(calcTypes), tripleList(shares), tripleList(mutable),
-		strList(csOrder), strList(allOrder), finishCalls, b(finishInEnd), b(endMarksDone))
+		strList(writes), strList(csOrder), strList(allOrder), finishCalls, b(finishInEnd), b(endMarksDone))
 	c.WriteLean("C16", src)
 	c.Summary["dedupNeeded"] = dedup
 	c.Summary["rangeFieldsNested"] = rangeNested
@@ -309,6 +318,7 @@ end BlugeGen.C16
 	c.Summary["docValueReaderArgument"] = argSrc
 	c.Summary["calculatorTypes"] = calcTypes
 	c.Summary["sharedMutable"] = len(mutable)
+	c.Summary["sourceWritesThrough"] = writes
 	c.Summary["collectSingleOrder"] = csOrder
 	c.Summary["allNextOrder"] = allOrder
 }
@@ -618,4 +628,133 @@ func allNextFacts(c *Ctx, p *Pkg) (order []string, finishCalls int, finishInEnd,
 	}
 	endMarksDone = endMarksDone && doneGuard
 	return
+}
+
+// sourceWrites lists writes through foreign slices in the value sources (see the Lean doc comment).
+func sourceWrites(c *Ctx, agg, search *Pkg) []string {
+	out := []string{}
+	valueMethods := map[string]bool{"Values": true, "Value": true, "Numbers": true, "Number": true, "Dates": true, "Date": true, "GeoPoints": true, "GeoPoint": true}
+	scan := func(p *Pkg, fileFilter func(string) bool, funcFilter func(*ast.FuncDecl) bool, where string) {
+		names := make([]string, 0, len(p.Files))
+		for n := range p.Files {
+			names = append(names, n)
+		}
+		sort.Strings(names)
+		for _, fn := range names {
+			if !fileFilter(fn) {
+				continue
+			}
+			for _, d := range p.Files[fn].Decls {
+				fd, ok := d.(*ast.FuncDecl)
+				if !ok || fd.Body == nil || !funcFilter(fd) {
+					continue
+				}
+				label := fd.Name.Name
+				if fd.Recv != nil && len(fd.Recv.List) == 1 {
+					t := fd.Recv.List[0].Type
+					if s, ok := t.(*ast.StarExpr); ok {
+						t = s.X
+					}
+					label = p.Src(t) + "." + label
+				}
+				label = where + "/" + fn + ":" + label
+				// foreign slices: slice-typed parameters and variables bound to the result of a call
+				foreign := map[string]bool{}
+				if fd.Type.Params != nil {
+					for _, fl := range fd.Type.Params.List {
+						if _, ok := fl.Type.(*ast.ArrayType); ok {
+							for _, n := range fl.Names {
+								foreign[n.Name] = true
+							}
+						}
+					}
+				}
+				own := map[string]bool{}
+				ast.Inspect(fd.Body, func(n ast.Node) bool {
+					as, ok := n.(*ast.AssignStmt)
+					if !ok {
+						return true
+					}
+					for i, l := range as.Lhs {
+						id, ok := l.(*ast.Ident)
+						if !ok {
+							continue
+						}
+						var r ast.Expr
+						if i < len(as.Rhs) {
+							r = as.Rhs[i]
+						} else if len(as.Rhs) == 1 {
+							r = as.Rhs[0]
+						}
+						switch x := r.(type) {
+						case *ast.CallExpr:
+							if f, ok := x.Fun.(*ast.Ident); ok && (f.Name == "make" || f.Name == "append" || f.Name == "new") {
+								if f.Name == "append" && len(x.Args) > 0 {
+									if a, ok := x.Args[0].(*ast.Ident); ok && foreign[a.Name] && !own[a.Name] {
+										break // handled below as a write
+									}
+								}
+								own[id.Name] = true
+							} else if as.Tok == token.DEFINE || !own[id.Name] {
+								foreign[id.Name] = true
+							}
+						case *ast.CompositeLit:
+							own[id.Name] = true
+						}
+					}
+					return true
+				})
+				isForeign := func(e ast.Expr) bool {
+					switch x := e.(type) {
+					case *ast.Ident:
+						return foreign[x.Name] && !own[x.Name]
+					case *ast.CallExpr:
+						if f, ok := x.Fun.(*ast.Ident); ok && (f.Name == "make" || f.Name == "append") {
+							return false
+						}
+						return true
+					}
+					return false
+				}
+				add := func(what string, n ast.Node) { out = append(out, label+": "+what+" "+p.Src(n)) }
+				ast.Inspect(fd.Body, func(n ast.Node) bool {
+					switch x := n.(type) {
+					case *ast.SliceExpr:
+						if isForeign(x.X) {
+							add("re-slices", x)
+						}
+					case *ast.AssignStmt:
+						for _, l := range x.Lhs {
+							if ie, ok := l.(*ast.IndexExpr); ok && isForeign(ie.X) {
+								add("assigns into", l)
+							}
+						}
+					case *ast.CallExpr:
+						name := ""
+						switch f := x.Fun.(type) {
+						case *ast.Ident:
+							name = f.Name
+						case *ast.SelectorExpr:
+							if id, ok := f.X.(*ast.Ident); ok && id.Name == "sort" {
+								name = "sort." + f.Sel.Name
+							}
+						}
+						switch {
+						case name == "append" && len(x.Args) > 0 && isForeign(x.Args[0]):
+							add("appends to", x)
+						case name == "copy" && len(x.Args) == 2 && isForeign(x.Args[0]):
+							add("copies into", x)
+						case strings.HasPrefix(name, "sort.") && len(x.Args) > 0 && isForeign(x.Args[0]):
+							add("sorts", x)
+						}
+					}
+					return true
+				})
+			}
+		}
+	}
+	scan(agg, func(string) bool { return true }, func(fd *ast.FuncDecl) bool { return fd.Recv != nil && valueMethods[fd.Name.Name] }, "search/aggregations")
+	// search/source.go: the value methods and the helper functions (RemoveNumericPaddedTerms, first…); `Fields()` lists field names, not values
+	scan(search, func(fn string) bool { return fn == "source.go" }, func(fd *ast.FuncDecl) bool { return fd.Recv == nil || valueMethods[fd.Name.Name] }, "search")
+	return out
 }
